@@ -1,6 +1,6 @@
 (* C15 — obligations on the generated tables (Gen/ConfigSchemas.v), discharged by computation at every run. *)
 From Coq Require Import String List ZArith Bool.
-From V Require Import Model.C15_Config Model.C15_Valid Gen.ConfigSchemas Proofs.C15_Config.
+From V Require Import Model.C15_Config Model.C15_Valid Model.C15_Custom Gen.ConfigSchemas Gen.ConfigValidators Gen.ConfigCustoms Proofs.C15_Config Proofs.C15_Validators.
 Import ListNotations.
 Open Scope string_scope.
 
@@ -17,15 +17,123 @@ Proof. vm_compute. reflexivity. Qed.
 Lemma coherent_in S : In S all_schemas -> schema_coherentb S = true.
 Proof. intros H. pose proof all_coherent_l as A. rewrite forallb_forall in A. auto. Qed.
 
-Definition pin_ok (S : schema) : bool :=
-  match assoc_get (sname S) expected_valid_hash with Some h => String.eqb h (svalid_hash S) | None => false end.
-Lemma validators_pinned_l : forallb pin_ok all_schemas = true.
+(* ---- the translated Validate() of every section is the model's validator ---- *)
+Definition sec_matches (s : string) : bool :=
+  match assoc_get s gen_clause_table, assoc_get s model_clauses with
+  | Some g, Some m => clauses_match (map snd g) m
+  | _, _ => false end.
+
+Lemma validators_match_l : forallb (fun S => sec_matches (sname S)) all_schemas = true.
 Proof. vm_compute. reflexivity. Qed.
 
+Definition gen_by (cl : list (string * vcond)) : validator := fun orc c => rejects_none orc c (map snd cl).
+
+Lemma gen_validators_shape : gen_validators = map (fun p => (fst p, gen_by (snd p))) gen_clause_table.
+Proof. reflexivity. Qed.
+
+Lemma assoc_get_map {A B} (f : A -> B) s (l : list (string * A)) :
+  assoc_get s (map (fun p => (fst p, f (snd p))) l) = option_map f (assoc_get s l).
+Proof.
+  induction l as [|[k v] r IH]; [reflexivity|]. cbn [map assoc_get fst snd].
+  destruct (String.eqb s k); [reflexivity|exact IH].
+Qed.
+
+Lemma validators_source_is_model_l S : In S all_schemas ->
+  exists G M, assoc_get (sname S) gen_validators = Some G /\ assoc_get (sname S) validators = Some M
+              /\ forall orc c, G orc c = M orc c.
+Proof.
+  intros I. pose proof validators_match_l as A. rewrite forallb_forall in A. specialize (A S I). cbv beta in A.
+  unfold sec_matches in A.
+  destruct (assoc_get (sname S) gen_clause_table) as [g|] eqn:EG; [|discriminate A].
+  destruct (assoc_get (sname S) model_clauses) as [m|] eqn:EM; [|discriminate A].
+  exists (gen_by g), (valid_by m). split; [|split].
+  - rewrite gen_validators_shape, assoc_get_map, EG. reflexivity.
+  - unfold validators. rewrite assoc_get_map, EM. reflexivity.
+  - intros orc c. unfold gen_by, valid_by. now apply clauses_match_sound.
+Qed.
+
+Definition gen_validator_of (s : string) : validator :=
+  match assoc_get s gen_validators with Some v => v | None => reject_all end.
+
+Lemma gen_validator_of_model S orc c : In S all_schemas -> gen_validator_of (sname S) orc c = validator_of (sname S) orc c.
+Proof.
+  intros I. destruct (validators_source_is_model_l S I) as [G [M [EG [EM E]]]].
+  unfold gen_validator_of, validator_of. rewrite EG, EM. apply E.
+Qed.
+
+(* ---- custom rules: translated to the model's rule, or pinned by the hash of their source ---- *)
 Definition custom_pin_ok (S : schema) : bool :=
-  forallb (fun '(id, h) => match assoc_get id expected_custom_hash with Some e => String.eqb e h | None => false end) (scustom_hashes S).
+  forallb (fun '(id, h) => custom_translated gen_custom_rules id
+                           || match assoc_get id expected_custom_hash with Some e => String.eqb e h | None => false end) (scustom_hashes S).
 Lemma customs_pinned_l : forallb custom_pin_ok all_schemas = true.
 Proof. vm_compute. reflexivity. Qed.
+
+Lemma star_load_save_scan acc l :
+  option_map (star_save "*") (star_load_from "*" acc l)
+  = option_map (fun q => if is_star_list q then ["*"] else (acc ++ q)%list) (star_scan l).
+Proof.
+  revert acc. induction l as [|[p|] r IH]; intros acc.
+  - cbn. now rewrite app_nil_r.
+  - cbn [star_load_from star_scan]. destruct (String.eqb p "*") eqn:E.
+    + reflexivity.
+    + rewrite IH. destruct (star_scan r) as [q|]; [|reflexivity]. cbn [option_map].
+      destruct (is_star_list q) eqn:Q; cbn [option_map].
+      * reflexivity.
+      * assert (N : is_star_list (p :: q) = false).
+        { destruct q as [|x q']; cbn [is_star_list]; [exact E|reflexivity]. }
+        rewrite N. now rewrite <- app_assoc.
+  - reflexivity.
+Qed.
+
+(* the model's pair of rules for crdt trusted_peers, executed on the two Config members, is `custom_load` *)
+Lemma model_custom_sem_l : exists F, custom_sem model_custom_rules "crdt.trusted_peers" = Some F
+  /\ forall k cur v, F v = custom_load "crdt.trusted_peers" k cur v.
+Proof.
+  eexists. split; [reflexivity|]. intros k cur v. unfold custom_load. cbn [String.eqb Ascii.eqb Bool.eqb].
+  destruct (as_tl v) as [tl|]; [|reflexivity].
+  unfold star_load.
+  transitivity (option_map VL (option_map (star_save "*") (star_load_from "*" [] tl))).
+  { destruct (star_load_from "*" [] tl); reflexivity. }
+  rewrite star_load_save_scan. destruct (star_scan tl) as [q|] eqn:SS; [|reflexivity]. cbn [option_map app].
+  destruct (is_star_list q) eqn:Q; [|reflexivity].
+  destruct q as [|x [|y q']]; try discriminate Q. cbn [is_star_list] in Q. apply String.eqb_eq in Q. now subst.
+Qed.
+
+Lemma cr_get_eq a b id : cr_get id a = cr_get id b -> cr_get (String.append id "/save") a = cr_get (String.append id "/save") b ->
+  custom_sem a id = custom_sem b id.
+Proof. intros E1 E2. unfold custom_sem. now rewrite E1, E2. Qed.
+
+Lemma crule_eqb_eq a b : crule_eqb a b = true -> a = b.
+Proof.
+  destruct a, b; cbn [crule_eqb]; intros H; try discriminate H;
+    apply andb_true_iff in H; destruct H as [H H3]; apply andb_true_iff in H; destruct H as [H1 H2];
+    apply String.eqb_eq in H1, H2, H3; now subst.
+Qed.
+
+Lemma custom_translated_get id : custom_translated gen_custom_rules id = true -> cr_get id gen_custom_rules = cr_get id model_custom_rules.
+Proof.
+  unfold custom_translated. destruct (cr_get id gen_custom_rules) as [r|]; [|discriminate].
+  destruct (cr_get id model_custom_rules) as [r'|]; [|discriminate]. intros E. apply crule_eqb_eq in E. now subst.
+Qed.
+
+Lemma customs_source_is_model_gen id : custom_translated gen_custom_rules id = true ->
+  custom_translated gen_custom_rules (String.append id "/save") = true ->
+  custom_sem gen_custom_rules id = custom_sem model_custom_rules id.
+Proof. intros T1 T2. apply cr_get_eq; now apply custom_translated_get. Qed.
+
+(* on the current source the member IS translated (both sides) *)
+Lemma trusted_peers_translated_l :
+  custom_translated gen_custom_rules "crdt.trusted_peers" && custom_translated gen_custom_rules "crdt.trusted_peers/save" = true.
+Proof. vm_compute. reflexivity. Qed.
+
+(* the rules translated from the source for crdt trusted_peers (load and save side), executed on the two Config members,
+   are the model's custom_load *)
+Lemma customs_source_is_model_l : exists F, custom_sem gen_custom_rules "crdt.trusted_peers" = Some F
+  /\ forall k cur v, F v = custom_load "crdt.trusted_peers" k cur v.
+Proof.
+  pose proof trusted_peers_translated_l as T. apply andb_true_iff in T. destruct T as [T1 T2].
+  rewrite (customs_source_is_model_gen _ T1 T2). exact model_custom_sem_l.
+Qed.
 
 Definition default_ok (S : schema) (orc : string -> bool) : bool := validator_of (sname S) orc (cget S (defaults S)).
 Lemma default_valid_l orc : forallb (fun S => default_ok S orc) all_schemas = true.
